@@ -89,7 +89,10 @@ def _make_spec_lookups(specs):
 
 SPEC_LOOKUP, SPEC_BY_STATUS, SPEC_BY_TYPE = _make_spec_lookups(SPECS)
 
-REALTIME_TYPES = {'tune_request', 'clock', 'start', 'continue', 'stop'}
+# System real time messages (status bytes 0xf8..0xff).
+# Note: 'tune_request' (0xf6) is a system common message, not real time.
+REALTIME_TYPES = {'clock', 'start', 'continue', 'stop',
+                  'active_sensing', 'reset'}
 
 DEFAULT_VALUES = {
     'channel': 0,
